@@ -61,7 +61,7 @@ func loadEngine(repo string) (*Engine, error) {
 	if err != nil {
 		return nil, err
 	}
-	e := &Engine{repo: repo, w: newWorld(), decls: map[*types.Func]*declInfo{}, globals: map[*types.Var]*globalInfo{}, targets: map[string]*Target{}, timeoutS: 10}
+	e := &Engine{repo: repo, w: newWorld(), decls: map[*types.Func]*declInfo{}, globals: map[*types.Var]*globalInfo{}, targets: map[string]*Target{}, timeoutS: 8}
 	var errs []string
 	for _, p := range all {
 		for _, pe := range p.Errors {
@@ -494,6 +494,9 @@ func (e *Engine) verifyFunc(t *Target) (res *FuncResult) {
 	}
 	// vacuity: some return is reachable
 	c.obls = append(c.obls, &Obligation{Name: t.Key + "/vacuity/exit", Kind: "vacuity", Func: t.Key, NCmds: len(c.cmds), PC: final.pc, Prop: "false", Text: "some return path is reachable under the precondition", ctx: c, Vacuity: true, Props: c.curProps})
+	for _, gf := range fs.GhostFinal {
+		c.ghostAssignFinal(final, gf, sig, fs)
+	}
 	sc := &SpecScope{c: c, cur: final, old: c.entry, vars: map[string]Val{}, oldVars: map[string]Val{}}
 	for k, v := range c.paramVals {
 		sc.vars[k] = v
@@ -595,7 +598,7 @@ func (e *Engine) dischargeOne(o *Obligation) {
 	r := runQuery(o.query(), nil, e.timeoutS)
 	if r.Status != "sat" && r.Status != "unsat" && !o.Vacuity {
 		// retry once with a longer timeout
-		r2 := runQuery(o.query(), nil, e.timeoutS*6)
+		r2 := runQuery(o.query(), nil, e.timeoutS*3)
 		r2.Time += r.Time
 		r = r2
 	}
@@ -627,4 +630,33 @@ func (e *Engine) dumpQuery(o *Obligation, dir string) string {
 
 func parserParseFile(src string) (*ast.File, error) {
 	return parser.ParseFile(token.NewFileSet(), "", src, 0)
+}
+
+// ghostAssignFinal defines the final version of a ghost function at function exit.
+func (c *FnCtx) ghostAssignFinal(st *State, cl *Clause, sig *types.Signature, fs *FuncSpec) {
+	key := "G_" + cl.Label
+	heapSorts[key] = "Int"
+	param := "gx"
+	if len(cl.Props) > 0 && cl.Props[0] != "" {
+		param = cl.Props[0]
+	}
+	c.nfresh++
+	bv := fmt.Sprintf("%s?%d", param, c.nfresh)
+	sc := &SpecScope{c: c, cur: st, old: c.entry, vars: map[string]Val{}, oldVars: map[string]Val{}}
+	for k, v := range c.paramVals {
+		sc.vars[k] = v
+		sc.oldVars[k] = v
+	}
+	for i := 0; i < sig.Results().Len(); i++ {
+		if i < len(fs.Results) {
+			sc.vars[fs.Results[i]] = st.env[sig.Results().At(i)]
+		}
+	}
+	sc.vars[param] = vInt(bv)
+	sc.bound = map[string]bool{param: true}
+	body := sc.intOf(cl.Expr)
+	nw := c.newHeapVersion(key)
+	c.declared[nw] = true
+	c.emit(fmt.Sprintf("(define-fun %s ((%s Int)) Int %s)", nw, bv, body))
+	st.heaps[key] = nw
 }
